@@ -112,7 +112,8 @@ class B:
             self.handles[p['x']] = h
             return h
         # explicit form
-        x = let(cls, dom)
+        # (half of the variables are declared with a name: let(T, d, name=...) is the same variable)
+        x = let(cls, dom, name=f'v{p["x"]}') if p['x'] % 2 else let(cls, dom)
         self.handles[p['x']] = x
         conds, k = [], 0
         for a in p['args']:
